@@ -114,7 +114,12 @@ DOMText *DOMTextImpl::splitText(XMLSize_t offset)
             XMLSize_t sz = ranges->size();
             if (sz != 0) {
                 for (XMLSize_t i =0; i<sz; i++) {
-                    ranges->elementAt(i)->updateSplitInfo( this, newText, offset);
+                    // without a parent the new node is not in any tree:
+                    // boundary-points cannot follow the text into it
+                    if (parent != 0)
+                        ranges->elementAt(i)->updateSplitInfo( this, newText, offset);
+                    else
+                        ranges->elementAt(i)->updateRangeForDeletedText( this, offset, len - offset);
                 }
             }
         }
